@@ -518,6 +518,9 @@ func c20NonFinite(c *Ctx, p *Program, docs []optDoc) {
 				}
 				return av{}, false
 			}
+			// marks the options record as carrying class information, so that validation helpers that
+			// are handed the whole record are entered
+			e.fields["EncoderOptions."+od.name+"#special"] = avUnknown()
 			rets, complete := e.run(vc)
 			key := od.name + "=" + cls
 			switch {
